@@ -235,12 +235,36 @@ func (p *FloatingIPPlugin) syncPodIP(pod *corev1.Pod) error {
 		return nil
 	}
 	ipInfos := cniArgs.Common.IPInfos
+	if held, err := p.ipam.ByKeyAndIPRanges(keyObj.KeyInDB, nil); err != nil {
+		return err
+	} else if ip := notAnnotated(held, ipInfos); ip != nil {
+		// ipam has given the key another ip since the annotation was written, it is the annotation of a replaced pod
+		glog.V(4).Infof("skip sync pod %s ip, ipam holds %s for it which is not in its annotation", keyObj.KeyInDB, ip)
+		return nil
+	}
 	for i := range ipInfos {
 		if ipInfos[i].IP == nil || ipInfos[i].IP.IP == nil {
 			continue
 		}
 		if err := p.syncIP(keyObj.KeyInDB, ipInfos[i].IP.IP, pod); err != nil {
 			glog.Warningf("sync pod %s ip %s: %v", keyObj.KeyInDB, ipInfos[i].IP.IP.String(), err)
+		}
+	}
+	return nil
+}
+
+// notAnnotated returns the first of the held ips which is not one of the annotated ipInfos
+func notAnnotated(held []*floatingip.FloatingIPInfo, ipInfos []constant.IPInfo) net.IP {
+	for _, fip := range held {
+		found := false
+		for i := range ipInfos {
+			if ipInfos[i].IP != nil && ipInfos[i].IP.IP.Equal(fip.FloatingIP.IP) {
+				found = true
+				break
+			}
+		}
+		if !found {
+			return fip.FloatingIP.IP
 		}
 	}
 	return nil
